@@ -10,7 +10,8 @@
 (*   holder kind  (where the $ref sits: 16 kinds)                          *)
 (*   second holder (commonality), collision pattern (name conflicts)       *)
 (* Documents: root api/root.json, aux1 api/sub/a.json,                     *)
-(*            aux2 api/sub/deep/b.json, aux3 common/c.json                 *)
+(*            aux2 api/sub/deep/b.json, aux3 common/root.json (a namesake  *)
+(*            of the root document)                                        *)
 (***************************************************************************)
 EXTENDS Scenarios
 
@@ -70,7 +71,7 @@ TargetOf(t, s) ==
                                 aux1 |-> AuxDoc([N_2 |-> Body(s, HelperIn("aux1")), N_7 |-> HelperDef]),
                                 \* a decoy nobody references: same file name as aux1, in aux2's own directory
                                 aux4 |-> AuxDoc([N_2 |-> Mk([type |-> "boolean"], <<>>), N_7 |-> Mk([type |-> "boolean"], <<>>)])], params |-> <<>>, resps |-> <<>>]
-    \* ... or across to another subtree (aux3 lives beside the root's directory: "../../common/c.json")
+    \* ... or across to another subtree (aux3 lives beside the root's directory: "../../common/root.json")
     [] t = "crosstrans" -> [ref |-> <<"aux1", "definitions", "N_1">>, rootdefs |-> <<>>,
                        aux |-> [aux1 |-> AuxDoc([N_1 |-> ObjP([N_3 |-> RefTo(<<"aux3", "definitions", "N_2">>)])]),
                                 aux3 |-> AuxDoc([N_2 |-> Body(s, HelperIn("aux3")), N_7 |-> HelperDef]),
